@@ -305,10 +305,24 @@ def trr_reader(ctx):
             )
         else:
             # data size = sum(header[key] for key in TRR_DATA_ITEMS), computed from the header just read
+            sum_defs = []
             for d, _ in fl.rd(path_of(other) or "?", tn):
                 v = d.value
                 if isinstance(v, ast.Call) and dotted(v.func) == "sum" and "TRR_DATA_ITEMS" in ast.unparse(v) and "header" in ast.unparse(v):
                     need_ok = True
+                    sum_defs.append(d.at)
+            if need_ok:
+                # ... of the header *just read*: every path from a header read to this guard recomputes the size
+                # (TRR frames carry their own sizes; a size kept from an earlier frame is stale)
+                hreads = [cfg.node_of(h) for h in walk_local(f) if isinstance(h, ast.Call) and last_name(h) == "read_trr_header"]
+                for hn in hreads:
+                    if cfg.reaches(hn, tn, avoid=sum_defs, labels_excluded=("exc",)):
+                        need_ok = False
+                        ctx.bad("R-13.3", r, "the data size required by the size guard is not recomputed for every header that is read (a path from read_trr_header to the guard bypasses `sum(header[key] for key in TRR_DATA_ITEMS)`): TRR frames carry their own sizes, so with frames of different size the guard uses an earlier frame's size - a larger frame is parsed while partly written, a smaller one is held back",
+                                construct="data size of the guard kept from an earlier header")
+                        break
+                if not need_ok:
+                    continue
         if not need_ok:
             ctx.bad("R-13.3", r, f"the number of bytes required by the size guard is not the {'header size' if last_name(r) == 'read_trr_header' else 'sum of the data-item sizes of the header just read'}",
                     construct=short(e, 80))
@@ -605,6 +619,7 @@ def run(ctx):
 
 
 VARIANTS = [
+    B("c13-trr-data-size-from-first-header", GROMACS, '                        if first_header:\n                            logger.debug("TRR header was: %i", new_bytes)\n                            first_header = False\n                        # Calculate the size of the data:\n                        self.data_size = sum(\n                            header[key] for key in TRR_DATA_ITEMS\n                        )\n', '                        if first_header:\n                            self.data_size = sum(\n                                header[key] for key in TRR_DATA_ITEMS\n                            )\n                            logger.debug("TRR header was: %i", new_bytes)\n                            first_header = False\n', "R-13.3", why="seeded C13_g"),
     B("c13-trr-give-up-on-stale-size", GROMACS, "                                if (\n                                    self.check_poll() is not None\n                                    and os.path.getsize(self.trr_file)\n                                    < self.bytes_read + self.data_size\n                                ):", "                                if self.check_poll() is not None:", "R-13.8", control=True, why="seeded C13_e"),
     B("c13-lammps-lone-newline-continue", ENGPARTS, "            reader_class.previous_position = reader_class.current_position\n            reader_class.current_position = reader_class.file_object.tell()\n            return trajectory, box\n        spl = line.split()", "            reader_class.previous_position = reader_class.current_position\n            reader_class.current_position = reader_class.file_object.tell()\n            continue\n        spl = line.split()", "R-13.7", control=True, why="seeded C13_d"),
     B("c13-xyz-skips-comment-line-by-read", ENGPARTS, "        if i % block_size > 1:", "        if i % block_size == 1:\n            reader_class.file_object.readline()\n        if i % block_size > 1:", "R-13.7"),
